@@ -37,6 +37,7 @@ type Case struct {
 	Envs      []*vx.Node   `json:"envs,omitempty"`
 	Resolvers [][]vx.KV    `json:"resolvers,omitempty"`
 	Perms     [][]int      `json:"perms"`
+	IfaceKeys bool         `json:"ifacekeys,omitempty"` // input maps are map[interface{}]interface{} (what the YAML decoder produces)
 }
 
 var keyPool = []string{"a", "b", "a.b", "a.c", "a.b.c", "a.0", "a.1", "b.a", "b.0.a", "a.b.0", "c", "c.a"}
@@ -70,7 +71,7 @@ func genDotted(t *rapid.T, varexp bool) *gen.Tree {
 }
 
 func genCase(t *rapid.T) Case {
-	c := Case{Perms: genPerms(t)}
+	c := Case{Perms: genPerms(t), IfaceKeys: rapid.IntRange(0, 2).Draw(t, "ifacekeys") == 0}
 	switch rapid.IntRange(0, 9).Draw(t, "kind") {
 	case 0, 1, 2:
 		c.Kind = "newfrom"
@@ -122,36 +123,50 @@ func order(n int, perm []int) []int {
 	return out
 }
 
-func treeGo(t *gen.Tree, perm []int) interface{} {
+func treeGo(t *gen.Tree, perm []int, iface bool) interface{} {
 	switch t.K {
 	case "obj":
+		if iface {
+			m := map[interface{}]interface{}{}
+			for _, i := range order(len(t.Keys), perm) {
+				m[t.Keys[i]] = treeGo(t.Vals[i], perm, iface)
+			}
+			return m
+		}
 		m := map[string]interface{}{}
 		for _, i := range order(len(t.Keys), perm) {
-			m[t.Keys[i]] = treeGo(t.Vals[i], perm)
+			m[t.Keys[i]] = treeGo(t.Vals[i], perm, iface)
 		}
 		return m
 	case "list":
 		a := make([]interface{}, len(t.Vals))
 		for i, v := range t.Vals {
-			a[i] = treeGo(v, perm)
+			a[i] = treeGo(v, perm, iface)
 		}
 		return a
 	}
 	return t.Prim()
 }
 
-func nodeGo(n *vx.Node, perm []int) interface{} {
+func nodeGo(n *vx.Node, perm []int, iface bool) interface{} {
 	switch n.K {
 	case "obj":
+		if iface {
+			m := map[interface{}]interface{}{}
+			for _, i := range order(len(n.Keys), perm) {
+				m[n.Keys[i]] = nodeGo(n.Vals[i], perm, iface)
+			}
+			return m
+		}
 		m := map[string]interface{}{}
 		for _, i := range order(len(n.Keys), perm) {
-			m[n.Keys[i]] = nodeGo(n.Vals[i], perm)
+			m[n.Keys[i]] = nodeGo(n.Vals[i], perm, iface)
 		}
 		return m
 	case "list":
 		a := make([]interface{}, len(n.Vals))
 		for i, v := range n.Vals {
-			a[i] = nodeGo(v, perm)
+			a[i] = nodeGo(v, perm, iface)
 		}
 		return a
 	}
@@ -220,13 +235,13 @@ func runCase(c Case, r *runlog.R) error {
 				opts = append(opts, ucfg.VarExp)
 			}
 			s = sigOf(func() (interface{}, error) {
-				cfg, err := ucfg.NewFrom(treeGo(c.A, perm), opts...)
+				cfg, err := ucfg.NewFrom(treeGo(c.A, perm, c.IfaceKeys), opts...)
 				if err != nil {
 					return nil, err
 				}
 				orders[fmt.Sprint(cfg.GetFields())] = true
 				if c.Kind == "merge" {
-					if err := cfg.Merge(treeGo(c.B, perm), append(append([]ucfg.Option{}, opts...), uc.PolicyOpts(c.Policy)...)...); err != nil {
+					if err := cfg.Merge(treeGo(c.B, perm, c.IfaceKeys), append(append([]ucfg.Option{}, opts...), uc.PolicyOpts(c.Policy)...)...); err != nil {
 						return nil, err
 					}
 				}
@@ -239,7 +254,7 @@ func runCase(c Case, r *runlog.R) error {
 				break
 			}
 			s = sigOf(func() (interface{}, error) {
-				cfg, err := ucfg.NewFrom(nodeGo(c.Root, perm), opts...)
+				cfg, err := ucfg.NewFrom(nodeGo(c.Root, perm, c.IfaceKeys), opts...)
 				if err != nil {
 					return nil, err
 				}
@@ -286,6 +301,7 @@ func runCase(c Case, r *runlog.R) error {
 		return fmt.Errorf("the outcome of the same %s operation depends on map enumeration order: %d different outcomes in %d repetitions\n%s", c.Kind, len(sigs), reps, strings.Join(lines, "\n"))
 	}
 	r.Class("kind=" + c.Kind)
+	r.ClassIf(c.IfaceKeys, "interface-keyed input maps")
 	r.ClassIf(strings.HasPrefix(first, "error"), "outcome: error")
 	r.ClassIf(strings.HasPrefix(first, "ok"), "outcome: ok")
 	r.ClassIf(len(orders) >= 2, "two or more enumeration orders of the root observed")
